@@ -54,6 +54,12 @@ fn c11_oracle(r: &mut Report, store: &Store, u: &resolver::StoreUpdates, mode_of
                 r.fail("oracle", "C11/local-audit-added-or-altered", format!("{name}: {a:?} is not (in order) one of the audits that were there"), case);
             }
         }
+        // a violation is never "unused": dropping it allows what it forbids
+        for o in old.iter().filter(|o| matches!(o.kind, AuditKind::Violation { .. })) {
+            if !new.contains(o) {
+                r.fail("oracle", "C11/violation-pruned", format!("{name}: the update drops the local violation entry {:?} (importable = {})", o.kind, o.importable), case);
+            }
+        }
         if !mode_of(name).prune_non_importable_audits && &old != new {
             r.fail("oracle", "C11/local-audits-touched-without-flag", format!("{name}: local audits changed although pruning of audits is off"), case);
         }
